@@ -21,25 +21,34 @@
 //                                   whole part: the mergeCell children of the mergeCells child of the root, `ref` decoded by get_dimension), appended
 //                                   as (name, path, region) -- same count, order, corners, attributed to that sheet; frame: only `merged_regions`
 //                                   changes, to Some, and only on Ok
-//   Xlsx::load_merged_regions       C17 idempotent (cache already loaded: nothing changes), else as read_merged_regions; C07 frame
+//   Xlsx::load_merged_regions       C17 idempotent (cache already loaded: nothing changes), else as read_merged_regions; frame
 //   Xlsx::merged_regions            C17 the loaded list itself (requires: loaded -- documented API protocol)
 //   Xlsx::merged_regions_by_sheet   C17 exactly the entries recorded under exactly this name, in order
 //   Xlsx::worksheet_merge_cells     C17 first sheet with exactly this name (None for an unknown name or a missing part); Some(Ok(regions of that
 //                                   part == ws_scan)), through the ASSUMED contract of read_merge_cells (unit xlsxxml) and two lemmas relating
 //                                   the walk of the part to the walk of the mergeCells element; Some(Err) if the part cannot be opened; frame
 //   Xlsx::worksheet_merge_cells_at  C17 None beyond the sheet list, else worksheet_merge_cells of the n-th sheet's name; frame
-//   Xlsx::load_tables               C17/C07 idempotent, frame, loaded on Ok (callee read_table_metadata by the contract proved in unit xlsxwb)
+//   Xlsx::load_tables               C17 idempotent, frame, loaded on Ok
+//   Xlsx::read_table_metadata       C17 the XML part unit xlsxwb left unspecified, for every table part the function opens (WHICH parts -- the path
+//                                   arithmetic through `format!`, rule R4 -- stays unspecified): the pushed entry is what the part declares by the
+//                                   ECMA-376 18.5.1 walk `tb_scan`: displayName, ref (decoded by get_dimension), headerRowCount default 1,
+//                                   totalsRowCount default 0 (attribute named exactly so), insertRow, the tableColumn captions in document order;
+//                                   it is attributed to the sheet whose relationships are being read.  Proved under `tb_plain` (no XML reference
+//                                   in the text attributes; insertRow not spelled "false"); the two bridge lemmas to the property fail
+//                                   (findings 1, 2).  Frame, loaded-or-unchanged, header / totals arithmetic, C06: as in unit xlsxwb (same
+//                                   directive text; the same four C06 obligations fail here under this unit's name: finding 3).
+//   InnerTableMetadata::new         C17 defaults (1 header row, no totals row, no insert row, empty texts)
 //   Xlsx::table_names, table_names_in_sheet
 //                                   C17 all loaded names in order / those recorded under exactly this sheet name, in order
-// NOT specified here: the XML plumbing of read_table_metadata (which parts, attribute values) -- see unit xlsxwb for its frame / arithmetic / C06.
+// NOT specified here: which parts read_table_metadata opens (sheet rels path, `../` resolution of table targets: `format!` is opaque, rule R4).
 // TRUSTED (all marked below): the quick-xml / zip stand-ins (A-xml / A-zip), byte-keyed BTreeMap lookups (`bk_lookup` axioms), std
 // specifications (A-std), byte-literal contents (axiom_bytelits), callee contracts: detect_custom_number_format (unit formats),
 // builtin_format_by_id (Kani harness builtin_by_id_all_short_ids), get_dimension (units a1 / xlsxxml), read_merge_cells (unit xlsxxml),
-// read_table_metadata (unit xlsxwb), Reader::metadata.
+// Reader::metadata; str::parse::<u32> (uninterpreted `parse_spec`).
 // Declared rewrites (logged): byte-string literal patterns -> binding + guard (Verus crashes on them), `map_err(Variant)` eta-expanded,
 // `&self.sheets` -> `self.sheets.iter()` + R6 (loop with `continue`), `iter().filter(..).map(..).collect()` / `iter().map(..).collect()`
 // unfolded into the loop that defines them (vstd's prophetic Filter spec / map spec in generic impls out of reach), closure patterns (R2c).
-// Genuine findings: findings/xlsxparts.json (native demonstrations findings/xlsxparts_*.rs).
+// Genuine findings: findings/xlsxparts.json (native demonstrations findings/xlsxparts_*.rs); fixed ones are listed under "fixed" there.
 #![feature(pattern)]
 #![allow(unused_imports, dead_code, unused_variables, unused_mut, unused_assignments, unexpected_cfgs)]
 use vstd::prelude::*;
@@ -2051,7 +2060,7 @@ a.map_err(|e| -> (x: XlsxError) ensures x == \g<1>(e) { \g<1>(e) })?
 //@@ endimpl
 
 // =====================================================================================================================
-// C17 / C07: the table cache.  `load_tables` fills it once (read_table_metadata: under contract in unit xlsxwb -- frame, header / totals
+// C17: the table cache.  `load_tables` fills it once (read_table_metadata: below; also under contract in unit xlsxwb -- frame, header / totals
 // arithmetic, C06); `table_names` / `table_names_in_sheet` list the loaded names in order.
 // =====================================================================================================================
 /// every sheet part name starts with "xl/" (data invariant of `sheets`, established by read_workbook: clause C16.sheet_paths_under_xl of unit xlsxwb)
